@@ -41,6 +41,29 @@ fn p_obj_consume_with_ret_tmp() {
     assert!(r == id ^ 0x55, "C06 by-value method received the value");
     assert!(drops() == 1 && made() == 1, "C06 a by-value call destroys the value exactly once (object with temporary storage)");
 }
+#[kani::proof]
+#[kani::unwind(3)]
+fn p_obj_generic_trait() {
+    // objects over a GENERIC trait (alone / as group member / by reference): same lifecycle, and
+    // nothing is allocated on the object's behalf that is not freed (leak obligation)
+    let id: u32 = kani::any();
+    let which: u8 = kani::any();
+    kani::assume(which < 3);
+    match which {
+        0 => { let o = trait_obj!(P::new(id) as Gen<u32>); assert!(o.gen_get(5) == id ^ 5 && drops() == 0); drop(o); assert!(drops() == 1, "C06 boxed object over a generic trait: value destroyed exactly once"); }
+        1 => {
+            let g = group_obj!(P::new(id) as GG);
+            let c = cast!(g impl GenU32).unwrap();
+            assert!(c.gen_get(6) == id ^ 6 && c.look() == id ^ 7 && drops() == 0);
+            drop(c);
+            assert!(drops() == 1, "C06 boxed group with a generic member: value destroyed exactly once");
+        }
+        _ => { let p = P::new(id); { let o = trait_obj!(&p as Gen<u32>); assert!(o.gen_get(7) == id ^ 7); } assert!(drops() == 0, "C06 by-reference object never drops the referent"); drop(p); assert!(drops() == 1); }
+    }
+    kani::cover!(which == 0, "boxed");
+    kani::cover!(which == 1, "group");
+    kani::cover!(which == 2, "by reference");
+}
 //@ prefix=p_ref kind=property clause=by-reference, by-mutable-reference and reference-counted objects never drop or free what they borrow; the referent stays usable
 #[kani::proof]
 #[kani::unwind(4)]
